@@ -446,6 +446,34 @@ def serve(argv):
         if kind == "asan":
             impls.append(_Impl("c", mrm.MemoryRecords, cr.DefaultRecordBatch, cr.LegacyRecordBatch,
                                ControlRecord.parse))
+            # Decompressed payloads are handed to the compiled decoders in allocations that end exactly at their last
+            # byte (and, when empty, start at the first byte of one): an access one byte past - or any byte before -
+            # the decompressed data lands in a redzone instead of the spare NUL / object header of a bytes object.
+            import ctypes
+
+            def _exact_out(fn):
+                def w(data, *a, **k):
+                    out = fn(data, *a, **k)
+                    try:
+                        raw = bytes(out)
+                    except Exception:
+                        return out
+                    n = len(raw)
+                    size = max(n, 64)
+                    arr = (ctypes.c_ubyte * size)()
+                    mv = memoryview(arr).cast("B")
+                    if n == 0:
+                        return mv[0:0]
+                    mv[size - n:] = raw
+                    return mv[size - n:]
+                return w
+            import importlib
+            for mname in ("legacy_records", "default_records"):
+                mod = importlib.import_module("aiokafka.record._crecords." + mname)
+                for fname in ("gzip_decode", "snappy_decode", "lz4_decode", "zstd_decode"):
+                    if hasattr(mod, fname):
+                        setattr(mod, fname, _exact_out(getattr(mod, fname)))
+                        info["exact_" + mname] = info.get("exact_" + mname, 0) + 1
         else:
             # `_MemoryRecordsPy` builds whatever the module globals name; point them at
             # the `_...Py` classes (this is exactly the selection NO_EXTENSIONS makes),
